@@ -19,6 +19,7 @@ from resonaate.estimation import (
     initialOrbitDeterminationFactory,
     sequentialFilterFactory,
 )
+from resonaate.estimation.adaptive.adaptive_filter import AdaptiveFilter
 from resonaate.estimation.particle.particle_filter import ParticleFilter
 from resonaate.estimation.sequential_filter import FilterFlag, SequentialFilter
 from resonaate.physics.noise import initialEstimateNoise, noiseCovarianceFactory
@@ -475,7 +476,8 @@ class EstimateAgent(Agent):  # pylint: disable=too-many-public-methods
         Args:
             observations (list): :class:`.Observation` objects of this agent.
         """
-        if self.maneuver_detected:
+        # [NOTE]: a running adaptive filter carries the START flag itself; MMAE is only started from a sequential filter
+        if self.maneuver_detected and not isinstance(self.nominal_filter, AdaptiveFilter):
             self._beginAdaptiveEstimation(observations)
 
         if FilterFlag.ADAPTIVE_ESTIMATION_CLOSE in self.nominal_filter.flags:
